@@ -326,6 +326,41 @@ def run(ctx, ck):
         ck.ob('R-EXH.rows', '%s|section %s' % (f.qual, sname), counts == [1], f.loc(),
               'section written exactly once on every path' if counts == [1] else
               'section written %s times depending on the path' % counts)
+    # the source block: every labelled line prints that quantity of the source the block belongs to
+    ck.rule('R-DEP.labelled-value', 'a line labelled VOLTAGE / CURRENT / IMPEDANCE / POWER prints that quantity of its own source')
+    from ..symx import unwrap_formatted, leading_literal, fold_text
+    src_w = m.func('mininec.Excitation.as_mininec')
+    labels = {'VOLTAGE': ['self.idx + 1', 'self.voltage.real', 'self.voltage.imag'],
+              'CURRENT': ['self.current.real', 'self.current.imag'],
+              'IMPEDANCE': ['self.impedance.real', 'self.impedance.imag'],
+              'POWER': ['self.power']}
+    got_lab = {}
+    for p_ in SymExec(ctx, src_w, bind_loops=True, no_expand=wq - {src_w.qual}).run():
+        if p_.end == 'raise':
+            continue
+        for e_, st_ in line_exprs(p_):
+            txt_ = ' '.join(c_.value for c_ in ast.walk(e_) if isinstance(c_, ast.Constant) and isinstance(c_.value, str))
+            lab = [l_ for l_ in labels if l_ in txt_]
+            if len(lab) != 1:
+                continue
+            vals_ = []
+            for v_ in (row_values(e_) or []):
+                u_ = unwrap_formatted(v_)
+                try:
+                    if isinstance(fold_text(u_), str):
+                        continue        # padding
+                except ValueError:
+                    pass
+                vals_.append(canon_k(norm(u_)))
+            prev = got_lab.get(lab[0])
+            if prev is None or prev[0] == labels[lab[0]]:
+                got_lab[lab[0]] = (vals_, src_w.loc(st_))
+    for lab, want_ in sorted(labels.items()):
+        g_ = got_lab.get(lab)
+        ck.ob('R-DEP.labelled-value', '%s|%s' % (src_w.qual, lab), g_ is not None and g_[0] == want_,
+              g_[1] if g_ else src_w.loc(),
+              'the %s line prints %s' % (lab, want_) if g_ is not None and g_[0] == want_ else
+              'the %s line prints %s, expected %s of the source itself' % (lab, g_[0] if g_ else 'nothing', want_))
     # format_float: characters may only be cut from a text that has a decimal point (cutting an
     # integer text drops significant digits: 227364204 -> 22736420)
     ck.rule('R-FMT.truncate-guard', 'format_float only truncates texts that contain a decimal point')
